@@ -1176,7 +1176,8 @@ where
     T: Storable,
 {
     fn eq(&self, other: &Self) -> bool {
-        self.handle() == other.handle()
+        //handles are only unique within the store that holds the item (e.g. keys and data within their dataset)
+        self.handle() == other.handle() && std::ptr::eq(self.store, other.store)
     }
 }
 impl<'store, T> Eq for ResultItem<'store, T> where T: Storable {}
@@ -1185,6 +1186,7 @@ where
     T: Storable,
 {
     fn hash<H: Hasher>(&self, state: &mut H) {
+        (self.store as *const T::StoreType).hash(state);
         self.handle().hash(state)
     }
 }
@@ -1193,7 +1195,7 @@ where
     T: Storable,
 {
     fn partial_cmp(&self, other: &Self) -> Option<Ordering> {
-        Some(self.handle().cmp(&other.handle()))
+        Some(self.cmp(other))
     }
 }
 impl<'store, T> Ord for ResultItem<'store, T>
@@ -1201,7 +1203,10 @@ where
     T: Storable,
 {
     fn cmp(&self, other: &Self) -> Ordering {
-        self.handle().cmp(&other.handle())
+        //items of the same store are ordered by handle; stores (e.g. datasets) by their place in the parent store
+        (self.store as *const T::StoreType)
+            .cmp(&(other.store as *const T::StoreType))
+            .then(self.handle().cmp(&other.handle()))
     }
 }
 
